@@ -322,7 +322,7 @@ pub fn splice(inner: &str, calls: &[ReplCall]) -> String {
 pub fn in_domain(spec: &TreeSpec) -> bool {
   match spec {
     TreeSpec::Concat { children, .. } => children.iter().all(in_domain),
-    TreeSpec::Replace { inner, calls } => {
+    TreeSpec::Replace { inner, calls, .. } => {
       if !in_domain(inner) {
         return false;
       }
@@ -359,7 +359,7 @@ pub fn content(spec: &TreeSpec) -> (String, Vec<u8>) {
       }
       (s, b)
     }
-    TreeSpec::Replace { inner, calls } => {
+    TreeSpec::Replace { inner, calls, .. } => {
       // A ReplaceSource derives every view from its (decoded) text, also
       // when it has no replacements and sits over a binary leaf.
       let (s, _) = content(inner);
